@@ -14,7 +14,10 @@ Proved for every hit list, window, mode, comparator (strict order):
 * `rescore_min_score_drops` — exactly the rejected window hits disappear;
 * `rescore_window_sorted` — the first `w` output hits are in key order;
 * `rescoreSpec_outside_unchanged` — in the spec the hits behind the window follow unchanged;
-* `rescore_eq_spec_partial` — the code equals the spec **when no window hit is rejected**.
+* `rescore_eq_spec_partial` — the code equals the spec **when no window hit is rejected**;
+* `mech_rescore_eq_spec_partial` — for the whole request (`search` vs `Spec.search`): same page,
+  cursor and total when additionally the window fits into the fetched `max(limit,candidate_size)+1`
+  hits (sort not the per-segment fast path, `explain` off, no collapse).
 
 Full statement (not a theorem of the code):
   `∀ hits w, rescore o lt mode explain w hits = rescoreSpec o lt mode explain w hits`
@@ -217,6 +220,91 @@ theorem rescore_outside_unchanged_partial (o : ScoreOps S) (lt : Hit S → Hit S
     | some _ => rfl
   exact List.drop_left' hl
 
+/-! ### the whole request: fetch depth, window, page -/
+
+theorem take_append_take {α : Type} (A T : List α) (n m : Nat) (h : n ≤ A.length + m) :
+    (A ++ T.take m).take n = (A ++ T).take n := by
+  rw [List.take_append, List.take_append, List.take_take]
+  congr 2
+  omega
+
+theorem length_append_take_gt {α : Type} (A T : List α) (n m : Nat) (h : n < A.length + m) :
+    (n < (A ++ T.take m).length) ↔ (n < (A ++ T).length) := by
+  simp only [List.length_append, List.length_take]
+  omega
+
+/-- the code's page equals the statement's page when scores are computed, the sort is not the
+score fast path, `explain` is off, nothing is collapsed, the window fits into the fetched hits
+and no window hit is rejected -/
+theorem mech_rescore_eq_spec_partial (o : ScoreOps S) (r : Req S) (matched : List (Hit S))
+    (rr : RescoreReq) (hrr : r.rescore = some rr)
+    (hsc : scoresComputed r = true) (hnf : isFast r.plan = false) (hne : r.explain = false)
+    (hnc : r.collapse = none) (hret : r.returnHits = true) (hlim : r.limit ≤ maxCandidate)
+    (hw : rr.window ≤ topKOf r)
+    (hnr : ∀ h ∈ (isort (klt o r.plan) (afterCursor (klt o r.plan) r.cursor matched)).take rr.window,
+      h.resc ≠ .rejected) :
+    (search o r matched).hits = (Spec.search o r matched).hits ∧
+    (search o r matched).next = (Spec.search o r matched).next ∧
+    (search o r matched).total = (Spec.search o r matched).total := by
+  have hseen : matched.map (seen o r) = matched := by
+    have : seen o r = id := by funext h; simp [seen, hsc]
+    rw [this, List.map_id]
+  have hk : r.limit < topKOf r := by
+    unfold topKOf
+    rw [if_pos hret]
+    have : r.limit ≤ min (max (r.cand.getD r.limit) r.limit) maxCandidate := by
+      apply Nat.le_min.mpr
+      exact ⟨Nat.le_max_right _ _, hlim⟩
+    omega
+  -- abbreviations
+  generalize hL : isort (klt o r.plan) (afterCursor (klt o r.plan) r.cursor matched) = L at hnr
+  generalize hK : topKOf r = k at hw hk
+  -- the two rescored lists
+  have hspec : rescoreSpec o (klt o r.plan) rr.mode false rr.window L =
+      isort (klt o r.plan) ((L.take rr.window).filterMap (applyResc o rr.mode false)) ++ L.drop rr.window := rfl
+  have htt : (L.take k).take rr.window = L.take rr.window := by
+    rw [List.take_take, Nat.min_eq_left hw]
+  have hmech : rescore o (klt o r.plan) rr.mode false rr.window (L.take k) =
+      isort (klt o r.plan) ((L.take rr.window).filterMap (applyResc o rr.mode false)) ++
+        (L.drop rr.window).take (k - rr.window) := by
+    rw [rescore_eq_spec_partial o _ _ _ _ _ (by rw [htt]; exact hnr)]
+    unfold rescoreSpec
+    rw [htt, List.drop_take]
+  generalize hA : isort (klt o r.plan) ((L.take rr.window).filterMap (applyResc o rr.mode false)) = A at hspec hmech
+  have hAlen : A.length = (L.take rr.window).length := by
+    rw [← hA, length_isort]
+    apply length_filterMap_of_isSome
+    intro h hh
+    cases e : applyResc o rr.mode false h with
+    | none => exact absurd ((applyResc_none o rr.mode false).mp e) (hnr h hh)
+    | some _ => rfl
+  -- the two pages
+  have hpage : ∀ f : Hit S → Hit S × List (Hit S),
+      ((A ++ (L.drop rr.window).take (k - rr.window)).map f).take r.limit = ((A ++ L.drop rr.window).map f).take r.limit ∧
+      (r.limit < ((A ++ (L.drop rr.window).take (k - rr.window)).map f).length ↔
+        r.limit < ((A ++ L.drop rr.window).map f).length) := by
+    intro f
+    rw [List.length_take] at hAlen
+    rcases Nat.le_total rr.window L.length with hwl | hwl
+    · have hle : r.limit < A.length + (k - rr.window) := by omega
+      refine ⟨?_, ?_⟩
+      · rw [← List.map_take, ← List.map_take, take_append_take _ _ _ _ (Nat.le_of_lt hle)]
+      · rw [List.length_map, List.length_map]
+        exact length_append_take_gt _ _ _ _ hle
+    · have : L.drop rr.window = [] := List.drop_eq_nil_of_le hwl
+      rw [this]
+      simp
+  unfold search Spec.search
+  simp only [hseen, hret, if_true, hnf, hne, fetch, topK, hL, hK, Bool.false_eq_true, if_false]
+  unfold post rescored explained grouped page
+  simp only [hrr, hne, hnc, hmech, hspec, Bool.false_eq_true, if_false]
+  obtain ⟨h1, h2⟩ := hpage (fun h => (h, []))
+  refine ⟨h1, ?_, by first | trivial | rfl⟩
+  rw [h1]
+  by_cases hgt : r.limit < ((A ++ L.drop rr.window).map fun h => (h, ([] : List (Hit S)))).length
+  · rw [if_pos (by simpa [GT.gt] using h2.mpr hgt), if_pos (by simpa [GT.gt] using hgt)]
+  · rw [if_neg (by simpa [GT.gt] using (fun h => hgt (h2.mp h))), if_neg (by simpa [GT.gt] using hgt)]
+
 /-! ### non-vacuity and negative witnesses (integer scores) -/
 
 private def mk (doc : Nat) (score : Int) (r : Resc Int) : Hit Int :=
@@ -265,6 +353,14 @@ theorem window_beyond_fetched_witness :
     ((search intOps baseReq matchedW).hits.map fun p => (p.1.doc, p.1.score)) = [(0, 10), (1, 9), (2, 8)] ∧
     ((Spec.search intOps baseReq matchedW).hits.map fun p => (p.1.doc, p.1.score)) = [(4, 60), (0, 10), (1, 9)] := by
   decide
+
+/-- non-vacuity of `mech_rescore_eq_spec_partial`: ascending score sort (not the fast path),
+window 2 within the 4 fetched hits, nothing rejected -/
+example :
+    let r := { baseReq with plan := [⟨.score, false⟩], rescore := some ⟨2, .total⟩ }
+    (search intOps r matchedW).hits = (Spec.search intOps r matchedW).hits :=
+  (mech_rescore_eq_spec_partial intOps _ matchedW ⟨2, .total⟩ rfl (by decide) (by decide) rfl rfl rfl
+    (by decide) (by decide) (by decide)).1
 
 private def matchedD : List (Hit Int) :=
   [mk 0 10 .rejected, mk 1 9 .rejected, mk 2 8 .noMatch, mk 3 7 .noMatch, mk 4 6 .noMatch, mk 5 5 .noMatch]
